@@ -10,7 +10,6 @@ LEVEL = "proof"
 STREAM = "opt.final"
 CHUNK = 150
 CASE_SECONDS = 20
-NO_MODEL_STREAM = True
 TECHNIQUE = "Lean 4 proof of rewrite soundness (loop folding and subroutine extraction preserve the structural expansion) + spec expander applied to the real optimiser's output"
 LEVEL_TEXT = ("see lean/Ctrmml/Properties/C01.lean for what is proved (rewrite soundness over Spec/Expand) and C01_full_statement for what is not; every generated valid song is run "
               "through the REAL optimiser and the spec expander (perf) compares, for every original track, the played events with durations, the total length and the loop-point time "
@@ -110,6 +109,22 @@ def cases(rng, tier):
         if len([t for t in song if t < 16]) > 1: tags.add("multi-track")
         made += 1
         yield Case("opt %d %s" % (rng.choice(scores), songgen.render(song)), sorted(tags), "motif")
+
+
+def normalize(a):
+    """a non-InputError exception leaves the song half-rewritten in the real code; the model only
+    reports the exception"""
+    m = re.search(r"^(.*result=(?:exc|UB):\S+)", a)
+    if m:
+        return m.group(1)
+    # LOOP_BREAK parameters are overwritten by the validator that runs after each pass
+    global _BRK
+    if _BRK is None:
+        _BRK = songgen.event_types()["LOOP_BREAK"]
+    return re.sub(r"(?<=[:,])%d\.-?\d+\." % _BRK, "%d.0." % _BRK, a)
+
+
+_BRK = None
 
 
 def outcome_class(a):
